@@ -37,6 +37,7 @@ from io import StringIO
 from pathlib import Path
 from sys import platform
 from typing import IO, Match, Optional, Pattern, Tuple, Type, Union
+from xml.sax.saxutils import escape, unescape
 
 import libsbml
 
@@ -1682,7 +1683,8 @@ def _parse_notes_dict(sbase) -> dict:
             except ValueError:
                 LOGGER.debug(f"Unexpected content format '{_content}'.")
                 continue
-            notes_store[key.strip()] = value.strip()
+            # the notes string is XML: undo the character escaping of the text
+            notes_store[unescape(key).strip()] = unescape(value).strip()
         return {k: v for k, v in notes_store.items() if len(v) > 0}
     else:
         return {}
@@ -1701,7 +1703,7 @@ def _sbase_notes_dict(sbase: libsbml.SBase, notes: dict) -> None:
     if notes and len(notes) > 0:
         tokens = (
             ['<html xmlns = "http://www.w3.org/1999/xhtml" >']
-            + [f"<p>{k}: {v}</p>" for (k, v) in notes.items()]
+            + [f"<p>{escape(str(k))}: {escape(str(v))}</p>" for (k, v) in notes.items()]
             + ["</html>"]
         )
         _check(
